@@ -55,3 +55,11 @@ package types
 //@ lemma C16.rt.burn.encode-decode (v: uint32, tok: bytes, rcp: bytes, amt: amount, snd: bytes)
 //@ assume len(tok) == 32 && len(rcp) == 32 && len(snd) == 32 && amt >= 0
 //@ prove u32be(encBurn(v, tok, rcp, amt, snd), 0) == v && encBurn(v, tok, rcp, amt, snd)[4:36] == tok && encBurn(v, tok, rcp, amt, snd)[36:68] == rcp && u256be(encBurn(v, tok, rcp, amt, snd), 68) == amt && encBurn(v, tok, rcp, amt, snd)[100:132] == snd && len(encBurn(v, tok, rcp, amt, snd)) == 132
+
+// ---- remote token given as hex, right-aligned in 32 bytes (C16, C19, C20)
+
+//@ func RemoteTokenPadded(remoteTokenHex) (out, err)
+//@ serves C16 C19 C20
+//@ ensures[ok]  (err == nil) <==> (validHex(trimPrefix(remoteTokenHex, "0x")) && len(hexdec(trimPrefix(remoteTokenHex, "0x"))) <= 32)
+//@ ensures[pad] err == nil ==> out == leftPad32(hexdec(trimPrefix(remoteTokenHex, "0x")))
+//@ loop 0 invariant[zero] i >= 0 && forall p: uint64 :: p < 32 ==> mem(makeslice, p) == 0
